@@ -421,6 +421,26 @@ pub fn three_key_seeds(ctx: &mut Ctx, prop: &str, oracles: u32, clauses: u32, se
     crate::props_c08::seeded_group(ctx, prop, oracles, clauses, 3, vec![3, 200], &specs3, 60_000, secs);
 }
 
+/// closure over keys that live in the given buckets of an n-bucket table (the highest occupied bucket decides
+/// where the bitmap scan of a traversal ends)
+pub fn bucket_keys_closure(ctx: &mut Ctx, prop: &str, n: u64, buckets: &[u64], vals: Vec<u32>, oracles: u32, ro_mode: u8, cap: usize, secs: f64) {
+    let seed = ctx.seed;
+    let a = Alpha { label: "keys in chosen buckets", colliding: vec![5], other: vec![], vals };
+    let mut cfg = make_cfg(prop, KtId::Bytes, n, &a, seed);
+    let mut keys: Vec<Vec<u8>> = Vec::new();
+    for b in buckets {
+        let k = keys_in_bucket(KtId::Bytes, n, *b, 1, 5, seed.wrapping_add(*b), &keys);
+        keys.extend(k);
+    }
+    cfg.init_vals = vec![None; keys.len()];
+    cfg.absent.retain(|k| !keys.contains(k));
+    cfg.keys = keys;
+    cfg.oracles = oracles;
+    cfg.ro_mode = ro_mode;
+    let starts: Vec<Start> = empty_start(ctx, &cfg).into_iter().collect();
+    run_closure(ctx, &format!("keys in buckets {:?} of {n} x {:?} [bytes]", buckets, cfg.vals), &cfg, starts, cap, secs);
+}
+
 /// the key half of the class ladder alone
 pub fn class_ladder_keys(ctx: &mut Ctx, prop: &str, oracles: u32, clauses: u32, reopen: bool, step: usize) {
     let seed = ctx.seed;
@@ -500,6 +520,9 @@ pub fn c01(tier: &str, seed: u64) -> i32 {
         let specs200 = vec![crate::props_c08::SeedSpec { file: "key", boundary: 200 * 1024, eps: 0, free_slots: 2, val_pad: 1201 }];
         crate::props_c08::seeded_group(&mut ctx, "C01", O_API, 0, 3, vec![3], &specs200, 30_000, 6.0);
         three_key_seeds(&mut ctx, "C01", O_API, 0, 3.0);
+        if ctx.run.violations.is_empty() {
+            crate::props_f::edge_sweep(&mut ctx, "C01");
+        }
         // a table size that is not a power of two is requested (the table really has 16 buckets)
         let a = &alphas_small()[0];
         let mut cfg = make_cfg("C01", KtId::Bytes, 16, a, seed);
@@ -890,6 +913,9 @@ pub fn c15(tier: &str, seed: u64) -> i32 {
         let starts: Vec<Start> = empty_start(&mut ctx, &cfg).into_iter().collect();
         run_closure(&mut ctx, &format!("{} [bytes]", a.label), &cfg, starts, if thorough { 20_000 } else { 400 }, if thorough { 120.0 } else { 8.0 });
     }
+    // the highest occupied bucket is the last of its group of eight but not of its group of 64
+    bucket_keys_closure(&mut ctx, "C15", 128, &[7, 23], vec![5], O_RO, 2, 2_000, 10.0);
+    bucket_keys_closure(&mut ctx, "C15", 64, &[15, 39], vec![5], O_RO, 1, 2_000, 10.0);
     {
         // a key longer than 64 KiB
         let a = Alpha { label: "1 key of 70000 bytes + 1 short key x {5}", colliding: vec![70_000], other: vec![5], vals: vec![5] };
@@ -1012,6 +1038,9 @@ pub fn c18(tier: &str, seed: u64) -> i32 {
         let starts: Vec<Start> = empty_start(&mut ctx, &cfg).into_iter().collect();
         run_closure(&mut ctx, &format!("{} [bytes]", a.label), &cfg, starts, 100_000, 30.0);
     }
+    // the highest occupied bucket is the last of its group of eight but not of its group of 64
+    bucket_keys_closure(&mut ctx, "C18", 128, &[7, 23], vec![5], O_DOUBLE | O_XPROC, 0, 2_000, 10.0);
+    bucket_keys_closure(&mut ctx, "C18", 64, &[15, 39], vec![5], O_DOUBLE | O_XPROC, 0, 2_000, 10.0);
     crate::engine_b::c18_live(&mut ctx);
     let rule = format!("{RULE_A}; every (state, letter) is executed three times: the primary run, a second run in another directory of the same process with read-only calls spliced before and after the update, and a third spliced run in a different worker process; the resulting files must be byte-identical; over the closure this covers every history of the alphabet; non-trivial = double executions compared");
     ctx.finish_model_checking(&rule, &["double_executions", "cross_process_double_executions"])
